@@ -720,6 +720,12 @@ class Abs:
                         if isinstance(x, ast.Name) and x.id == name:
                             defs.append(('iter-unpack', st.iter, i))
         if not defs:
+            # a free variable of a nested function: bound in the enclosing one
+            g = getattr(f, '_parent', None)
+            while g is not None and not isinstance(g, ast.FunctionDef):
+                g = getattr(g, '_parent', None)
+            if g is not None:
+                return self._name_kind(e, m, g, env, depth + 1)
             return ('unknown', f'no definition of {name}')
         acc = None
         for d in defs:
@@ -813,6 +819,26 @@ class Abs:
         di = idx - (len(ps) - len(dfl))
         if 0 <= di < len(dfl):
             acc = self.kind(dfl[di], m, None, {}, depth + 1)
+        encl = getattr(f, '_parent', None)
+        while encl is not None and not isinstance(encl, ast.FunctionDef):
+            encl = getattr(encl, '_parent', None)
+        if encl is not None:
+            # a nested function: called by name inside the enclosing one
+            for c in ast.walk(encl):
+                if isinstance(c, ast.Call) and isinstance(
+                        c.func, ast.Name) and c.func.id == f.name:
+                    arg = None
+                    if ps.index(name) < len(c.args):
+                        arg = c.args[ps.index(name)]
+                    for k_ in c.keywords:
+                        if k_.arg == name:
+                            arg = k_.value
+                    if arg is None:
+                        continue
+                    k = self.kind(arg, m, _fn(c), {}, depth + 1)
+                    acc = k if acc is None else self.join(acc, k)
+            if acc is not None:
+                return acc
         for om in self.prog.pkg_modules():
             for c in ast.walk(om.tree):
                 if not isinstance(c, ast.Call):
